@@ -24,6 +24,26 @@ def runSeq (env : Env) : List Ty → Gamma → List String × List String
     (showRes r :: ms, (if gfpCheck env a b then "true" else "false") :: ss)
   | _, _ => ([], [])
 
+mutual
+/-- is there, anywhere in the type (names followed `fuel` times), a record field whose type unfolds to `null`?
+(the shape of known finding KF-C05-transitivity-null-field) -/
+def hasNullField (env : Env) : Nat → Ty → Bool
+  | 0, _ => false
+  | fuel + 1, t =>
+    match t with
+    | .var x => (match env.find x with | some d => hasNullField env fuel d | none => false)
+    | .opt t' | .vec t' => hasNullField env fuel t'
+    | .record fs => nullFieldIn env fuel true fs
+    | .variant fs => nullFieldIn env fuel false fs
+    | _ => false
+def nullFieldIn (env : Env) : Nat → Bool → Fields → Bool
+  | 0, _, _ => false
+  | _, _, .nil => false
+  | fuel + 1, isRec, .cons _ t r =>
+    (isRec && (match traceFull env t with | some (.prim .null) => true | _ => false)) ||
+      hasNullField env fuel t || nullFieldIn env fuel isRec r
+end
+
 def handleSubtype (op : String) (args : List String) : Option String :=
   match op, args with
   | "sub.subtype", [e, a, b] => (parseEnvTys e a b).map fun (env, t1, t2) =>
@@ -37,6 +57,21 @@ def handleSubtype (op : String) (args : List String) : Option String :=
       let (env, t2') := mergeType env1 env2 t2
       let (envS, t2S) := disjointUnion env1 env2 t2
       some (showRes (subAlg env defaultFuel [] t1 t2') ++ "\t" ++ (if gfpCheck envS t1 t2S then "true" else "false"))
+    | _, _, _, _ => none
+  -- transitivity on one triple: the property claims it ("true"); the model answers what its relation does
+  | "sub.trans", [e, a, b, c] =>
+    match (Sexp.parse e).bind Env.ofSexp, (Sexp.parse a).bind Ty.ofSexp, (Sexp.parse b).bind Ty.ofSexp,
+          (Sexp.parse c).bind Ty.ofSexp with
+    | some env, some t1, some t2, some t3 =>
+      let r12 := subAlg env defaultFuel [] t1 t2
+      let r23 := subAlg env defaultFuel [] t2 t3
+      let r13 := subAlg env defaultFuel [] t1 t3
+      let yes (r : Res) : Bool := match r with | .yes _ => true | _ => false
+      let undecided (r : Res) : Bool := match r with | .out => true | .panic _ => true | _ => false
+      let m := if undecided r12 || undecided r23 || undecided r13 then "out"
+        else if yes r12 && yes r23 && !(yes r13) then "false" else "true"
+      let tags := if m = "false" && hasNullField env 64 t3 then "\ttrans-null-field" else ""
+      some (m ++ "\ttrue" ++ tags)
     | _, _, _, _ => none
   | "sub.equal", [e, a, b] => (parseEnvTys e a b).map fun (env, t1, t2) =>
       showRes (eqAlg env defaultFuel [] t1 t2) ++ "\t-"
